@@ -376,10 +376,17 @@ def extract_unit(repo, unit_dir, out_path, variant=None):
                     hits.append(pos + len(line))
                 pos += len(line) + 1
             kk = ta.get('occurrence', 1)
-            if len(hits) < kk:
+            missing = len(hits) < kk
+            if missing and ta.get('if_missing') != 'empty_prefix':
                 raise LostAnchor('fn %s: R8 anchor /%s/ occurrence %d not found' % (it['name'], ta['regex'], kk))
-            cut = hits[kk - 1]
-            if ta.get('whole_statement'):
+            if missing:
+                # the anchor statement is gone: keep NOTHING of the body (the whole function is the opaque tail); the
+                # contract then cannot be proved, which the unit reports only together with a concrete input
+                cut = ob2 + 1
+                log.append({'rule': 'R8: anchor statement not found, the whole body is abstracted', 'item': it['name'], 'anchor': ta['regex']})
+            else:
+                cut = hits[kk - 1]
+            if ta.get('whole_statement') and not missing:
                 # extend the kept prefix to the end of the statement that starts on the anchor line
                 ls = text.rfind('\n', 0, cut - 1) + 1
                 depth = 0
